@@ -439,7 +439,7 @@ def coq_query(rundir, name, imports, exprs, timeout=600):
 
 # ------------------------------------------------ overlay test harnesses ----
 
-def build_overlay_test(rundir, pkg, go="go1.26", tags="verif"):
+def build_overlay_test(rundir, pkg, go="go1.26", tags="verif", race=False):
     """Compile /repo/<pkg>'s test binary with the harness *_test.go files of
     /verif/harness/overlay/<basename pkg>/ injected through -overlay."""
     rundir = os.path.abspath(rundir)
@@ -447,8 +447,8 @@ def build_overlay_test(rundir, pkg, go="go1.26", tags="verif"):
     repl = {os.path.join(REPO, pkg, f): os.path.join(src, f) for f in sorted(os.listdir(src)) if f.endswith(".go")}
     ov = os.path.join(rundir, "overlay_%s.json" % os.path.basename(pkg))
     json.dump({"Replace": repl}, open(ov, "w"))
-    binp = os.path.join(rundir, os.path.basename(pkg) + ".test")
-    rc, o, e = sh([go, "test", "-c", "-vet=off", "-overlay", ov, "-tags", tags, "-o", binp, "./" + pkg],
+    binp = os.path.join(rundir, os.path.basename(pkg) + (".race.test" if race else ".test"))
+    rc, o, e = sh([go, "test", "-c", "-vet=off"] + (["-race"] if race else []) + ["-overlay", ov, "-tags", tags, "-o", binp, "./" + pkg],
                   cwd=REPO, env=GOENV, timeout=900)
     return rc == 0, binp, (o + e).decode(errors="replace")
 
